@@ -468,6 +468,10 @@ func syncCloneTable(repo string) (string, string, error) {
 	if err != nil {
 		return "", "", err
 	}
+	hsCustomClears, hsFingerSets, err := handshakeSetters(repo)
+	if err != nil {
+		return "", "", err
+	}
 	h1guard, err := cachedLookupGuard(repo)
 	if err != nil {
 		return "", "", err
@@ -576,7 +580,7 @@ func syncCloneTable(repo string) (string, string, error) {
 		"   slices: Cookies, roundTripWrappers, httpRoundTripWrappers, udBeforeRequest, afterResponse, t2.Settings, t2.PriorityFrames\n" +
 		"   maps:   Headers, QueryParams, FormData, PathParams;  t_rt: retryOption;  t_scal: the value-typed settings\n" +
 		"   (by key, Model/Settings.v) Clone carries over *)\n" +
-		"From Coq Require Import List String.\nFrom ReqV Require Import Model.Settings Model.ReExec Model.LiveSel.\nImport ListNotations.\n" +
+		"From Coq Require Import List String.\nFrom ReqV Require Import Model.Settings Model.ReExec Model.LiveSel Model.Handshake.\nImport ListNotations.\n" +
 		"Definition gen_tbl : ctbl :=\n  {| t_sl := [" + strings.Join(sl, "; ") + "];\n     t_mp := [" + strings.Join(mp, "; ") + "];\n     t_rt := " + b(clientDeep["retryOption"]) + ";\n" +
 		"     t_scal := [" + strings.Join(scal, "; ") + "];\n" +
 		"     t_jar := " + b(jarInit) + "; t_dopt := " + b(clientDeep["dumpOptions"]) + "; t_dumper := " + b(optionsCloned && dumperCloned) + "; t_link := " + b(dumpLink) + ";\n" +
@@ -597,7 +601,9 @@ func syncCloneTable(repo string) (string, string, error) {
 		"(* Request.do starts with r.unmergeClientSettings(); unmergeClientSettings returns before its resets *)\n" +
 		"Definition gen_prologue : prologue := {| p_called := " + b(prologue[0]) + "; p_fastpath := " + b(prologue[1]) + " |}.\n" +
 		"(* Transport.roundTrip: the cached HTTP/2 connection lookup is guarded by t.forceHttpVersion != h1 *)\n" +
-		"Definition gen_guard : lguard := {| g_h1guard := " + b(h1guard) + " |}.\n"
+		"Definition gen_guard : lguard := {| g_h1guard := " + b(h1guard) + " |}.\n" +
+		"(* Transport.SetTLSHandshake clears the fingerprint hook; setTLSFingerprint sets it after installing the handshake; Transport.Clone runs it *)\n" +
+		"Definition gen_hs : hs_tbl := {| h_custom_clears_hook := " + b(hsCustomClears) + "; h_finger_sets_hook := " + b(hsFingerSets) + "; h_clone_runs_hook := " + b(fpReinstall) + " |}.\n"
 	return "CloneTable.v", out, nil
 }
 
@@ -795,4 +801,77 @@ func cachedLookupGuard(repo string) (bool, error) {
 		return false, fmt.Errorf("transport.go: the cached HTTP/2 connection lookup in Transport.roundTrip was not found; Model/LiveSel.v must be revisited")
 	}
 	return guarded, nil
+}
+
+// handshakeSetters reads Transport.SetTLSHandshake (transport.go): does it clear t.reinstallTLSFingerprint?
+// and Transport.setTLSFingerprint (client.go): is the hook assigned AFTER the handshake is installed
+// (t.SetTLSHandshake(fn) or t.TLSHandshakeContext = fn), so that installing does not clear it again?
+func handshakeSetters(repo string) (customClears, fingerSets bool, err error) {
+	find := func(file, name string) (*ast.FuncDecl, error) {
+		fs := token.NewFileSet()
+		f, err := parser.ParseFile(fs, filepath.Join(repo, file), nil, 0)
+		if err != nil {
+			return nil, err
+		}
+		for _, d := range f.Decls {
+			if fd, ok := d.(*ast.FuncDecl); ok && fd.Name.Name == name && fd.Recv != nil && fd.Body != nil {
+				if st, ok := fd.Recv.List[0].Type.(*ast.StarExpr); ok {
+					if id, ok := st.X.(*ast.Ident); ok && id.Name == "Transport" {
+						return fd, nil
+					}
+				}
+			}
+		}
+		return nil, fmt.Errorf("%s: func (*Transport) %s not found; Model/Handshake.v must be revisited", file, name)
+	}
+	isHookAssign := func(st ast.Stmt) (is bool, toNil bool) {
+		as, ok := st.(*ast.AssignStmt)
+		if !ok || len(as.Lhs) != 1 || len(as.Rhs) != 1 {
+			return false, false
+		}
+		sel, ok := as.Lhs[0].(*ast.SelectorExpr)
+		if !ok || sel.Sel.Name != "reinstallTLSFingerprint" {
+			return false, false
+		}
+		id, isIdent := as.Rhs[0].(*ast.Ident)
+		return true, isIdent && id.Name == "nil"
+	}
+	custom, err := find("transport.go", "SetTLSHandshake")
+	if err != nil {
+		return false, false, err
+	}
+	for _, st := range custom.Body.List {
+		if is, toNil := isHookAssign(st); is && toNil {
+			customClears = true
+		}
+	}
+	finger, err := find("client.go", "setTLSFingerprint")
+	if err != nil {
+		return false, false, err
+	}
+	install, hook := -1, -1
+	for i, st := range finger.Body.List {
+		if is, toNil := isHookAssign(st); is && !toNil {
+			hook = i
+		}
+		switch x := st.(type) {
+		case *ast.ExprStmt:
+			if c, ok := x.X.(*ast.CallExpr); ok {
+				if sel, ok := c.Fun.(*ast.SelectorExpr); ok && sel.Sel.Name == "SetTLSHandshake" {
+					install = i
+				}
+			}
+		case *ast.AssignStmt:
+			if len(x.Lhs) == 1 {
+				if sel, ok := x.Lhs[0].(*ast.SelectorExpr); ok && sel.Sel.Name == "TLSHandshakeContext" {
+					install = i
+				}
+			}
+		}
+	}
+	if install < 0 {
+		return false, false, fmt.Errorf("client.go: setTLSFingerprint no longer installs the handshake at top level; Model/Handshake.v must be revisited")
+	}
+	fingerSets = hook > install
+	return customClears, fingerSets, nil
 }
